@@ -22,7 +22,7 @@ def spec(doms, vars_, cons, tag=""):
 
 
 def key(s) -> str:
-    return repr((s["doms"], s["vars"], s["cons"]))
+    return repr((s["doms"], s["vars"], s["cons"], s.get("decision")))
 
 
 def var_range(s, v):
@@ -438,9 +438,29 @@ def f5(tier: str) -> Iterator[Dict]:
                 yield spec([dom] * 5, [(i, 0) for i in range(5)], [(jt, [0, 2], jp)] + cons[:-1], "F5:blocks+free")
 
 
-def universe(tier: str, families=("F1", "F2", "F3", "F4", "F5"), max_assignments=4096) -> List[Dict]:
+def f6(tier: str) -> Iterator[Dict]:
+    """Explicit decision domains in a non-default order (reversed, as the shipped magic-sequence launcher does, and rotated):
+    the order is a solver parameter, the solution set does not depend on it."""
+    import copy
+
+    base = [s for s in f3(tier) if n_assignments(s) <= 3000 and "decision" not in s] + list(f4(tier))
+    base += [s for i, s in enumerate(f5(tier)) if i % (7 if tier == "quick" else 2) == 0]
+    base += [s for i, s in enumerate(f2(tier)) if i % (23 if tier == "quick" else 5) == 0]
+    base += [s for i, s in enumerate(f1(tier)) if i % (61 if tier == "quick" else 301) == 0]
+    for s in base:
+        nd = len(s["doms"])
+        if nd < 2:
+            continue
+        for name, order in (("rev", list(range(nd - 1, -1, -1))), ("rot", list(range(1, nd)) + [0])):
+            t = copy.deepcopy(s)
+            t["decision"] = order
+            t["tag"] = f"F6:{name}:" + s["tag"]
+            yield t
+
+
+def universe(tier: str, families=("F1", "F2", "F3", "F4", "F5", "F6"), max_assignments=4096) -> List[Dict]:
     out, seen = [], set()
-    gens = {"F1": f1, "F2": f2, "F3": f3, "F4": f4, "F5": f5}
+    gens = {"F1": f1, "F2": f2, "F3": f3, "F4": f4, "F5": f5, "F6": f6}
     for fam in families:
         for s in gens[fam](tier):
             if n_assignments(s) > max_assignments and not s["tag"].startswith("F3"):
